@@ -778,6 +778,9 @@ func (fe *FnExec) doReturn(st *State, x *ssa.Return) {
 	}
 	fe.retPaths++
 	fe.cover(st, "return", "a return is reachable")
+	if fe.C.Impl != nil {
+		fe.refineEnsures(st, vals, x.Pos())
+	}
 	for i, cl := range fe.C.Ensures {
 		t, err := env.evalBool(cl.E)
 		if err != nil {
